@@ -151,6 +151,24 @@ func c05Scenario(c *Ctx, idx int, r *Rng) {
 	s := &c05Scen{c: c, w: w, srv: srv, now: time.Now(), r: r}
 	s.age = Pick(r, []float64{60.5, 25.5, 12.5, 4.5})
 	w.git("remote", "add", "origin", remote)
+	// a second remote with its own LFS store, named as the remote prune has to check
+	// (lfs.pruneremotetocheck): "pushed" and "the remote holds it" are both about THAT remote
+	pruneRemote, psrv := "origin", srv
+	pushTargets := []string{"origin"}
+	if r.Chance(25) {
+		srv2 := newLfsServer()
+		defer srv2.srv.Close()
+		remote2 := filepath.Join(base, "upstream.git")
+		runIn(base, nil, "git", "init", "-q", "--bare", remote2)
+		w.git("remote", "add", "upstream", remote2)
+		w.git("config", "--unset", "lfs.url")
+		w.git("config", "remote.origin.lfsurl", srv.srv.URL)
+		w.git("config", "remote.upstream.lfsurl", srv2.srv.URL)
+		w.git("config", "lfs.pruneremotetocheck", "upstream")
+		pruneRemote, psrv = "upstream", srv2
+		pushTargets = []string{"origin", "upstream", "upstream"}
+		c.R.Count("family.prune-remote-is-not-the-default-remote")
+	}
 	// ambient configuration
 	ambient := Pick(r, []string{"", "", "", "diff.noprefix", "diff.mnemonicprefix"})
 	if ambient != "" {
@@ -289,8 +307,9 @@ func c05Scenario(c *Ctx, idx int, r *Rng) {
 			s.log("tag t%d", op)
 		case 8, 9:
 			b := Pick(r, branches)
-			_, code := w.git("push", "-q", "origin", b)
-			s.log("push origin %s -> %d", b, code)
+			tgt := Pick(r, pushTargets)
+			_, code := w.git("push", "-q", tgt, b)
+			s.log("push %s %s -> %d", tgt, b, code)
 		case 10:
 			w.write(Pick(r, files), newContent())
 			args := []string{"stash"}
@@ -344,8 +363,10 @@ func c05Scenario(c *Ctx, idx int, r *Rng) {
 		}
 	}
 	if windows && r.Chance(85) {
-		_, code := w.git("push", "-q", "origin", "--all")
-		s.log("push origin --all -> %d", code)
+		for _, tgt := range map[bool][]string{true: {"origin"}, false: {"origin", "upstream"}}[pruneRemote == "origin"] {
+			_, code := w.git("push", "-q", tgt, "--all")
+			s.log("push %s --all -> %d", tgt, code)
+		}
 	}
 	// final index / working tree state
 	switch r.Intn(4) {
@@ -370,19 +391,19 @@ func c05Scenario(c *Ctx, idx int, r *Rng) {
 	flags := Pick(r, [][]string{{}, {}, {}, {"--force"}, {"--recent"}, {"--dry-run"}, {"--dry-run", "--verbose"}, {"--verify-remote"}, {"--verify-remote"}, {"--verify-remote", "--verify-unreachable"}, {"--verify-remote", "--when-unverified=continue"}})
 	lost := map[string]bool{}
 	if len(flags) > 0 && flags[0] == "--verify-remote" {
-		srv.mu.Lock()
+		psrv.mu.Lock()
 		var oids []string
-		for o := range srv.objs {
+		for o := range psrv.objs {
 			oids = append(oids, o)
 		}
 		sort.Strings(oids)
 		for _, o := range oids {
 			if r.Chance(30) {
-				delete(srv.objs, o)
+				delete(psrv.objs, o)
 				lost[o] = true
 			}
 		}
-		srv.mu.Unlock()
+		psrv.mu.Unlock()
 		if len(lost) > 0 {
 			s.log("server lost %d objects", len(lost))
 		}
@@ -460,7 +481,7 @@ func c05Scenario(c *Ctx, idx int, r *Rng) {
 		}
 	}
 	// unpushed: introduced by a commit reachable from a local branch, tag or HEAD and not from origin's refs
-	unpushed := revList(w.dir, w.env, "--branches", "--tags", "HEAD", "--not", "--remotes=origin")
+	unpushed := revList(w.dir, w.env, "--branches", "--tags", "HEAD", "--not", "--remotes="+pruneRemote)
 	for _, cm := range unpushed {
 		mine := treePtrs(w.dir, w.env, cm)
 		parents := strings.Fields(w.must("rev-list", "--parents", "-n", "1", cm))[1:]
@@ -550,12 +571,12 @@ func c05Scenario(c *Ctx, idx int, r *Rng) {
 	}
 	// ---- run prune
 	before := w.localObjects()
-	srv.mu.Lock()
+	psrv.mu.Lock()
 	onServer := map[string]bool{}
-	for o := range srv.objs {
+	for o := range psrv.objs {
 		onServer[o] = true
 	}
-	srv.mu.Unlock()
+	psrv.mu.Unlock()
 	c05LogScan(c, w, fmt.Sprintf("C05 scen seed=%d idx=%d", c.Seed, idx), r)
 	out, code := runIn(w.dir, append(append([]string(nil), w.env...), "GIT_TRACE=1"), w.lfs, append([]string{"prune"}, flags...)...)
 	after := w.localObjects()
